@@ -63,3 +63,98 @@ def selector_factory():
 
 def isnan(x):
     return False
+
+
+class deque:
+    """collections.deque of byte buffers: `items` is the sequence of their contents (a view is its bytes)."""
+
+    def __init__(self, iterable=()):
+        self.items = seq_of(iterable)
+
+    def __len__(self):
+        return len(self.items)
+
+    def popleft(self):
+        if len(self.items) == 0:
+            raise IndexError
+        x = self.items[0]
+        self.items = tail(self.items)
+        return x
+
+    def appendleft(self, x):
+        self.items = unit(x) + self.items
+
+    def append(self, x):
+        self.items = self.items + unit(x)
+
+    def extend(self, iterable):
+        self.items = self.items + seq_of(iterable)
+
+    def clear(self):
+        self.items = seq_of(())
+
+    def __getitem__(self, i):
+        require(i == 0, "deque-index-0-only")
+        if len(self.items) == 0:
+            raise IndexError
+        return self.items[0]
+
+    def __setitem__(self, i, value):
+        require(i == 0, "deque-index-0-only")
+        if len(self.items) == 0:
+            raise IndexError
+        self.items = unit(value) + tail(self.items)
+
+    def __delitem__(self, i):
+        require(i == 0, "deque-index-0-only")
+        if len(self.items) == 0:
+            raise IndexError
+        self.items = tail(self.items)
+
+
+def islice(d, n):
+    """itertools.islice(deque, n): the first n buffers.  (The assumed equation is the instance of the lemma
+    flat(s) == flat(s[:k]) ++ flat(s[k:]) for this split; stated here so that no quantifier instantiation is needed.)"""
+    off = d.items[:n]
+    assume(flat(d.items) == flat(off) + flat(d.items[len(off):]))
+    return off
+
+
+class Socket:
+    """socket.socket (non-blocking stream socket).  Assumed: a send accepts a prefix of what is offered and makes
+    progress when the first buffer offered is non-empty; BlockingIOError/InterruptedError mean nothing was sent."""
+
+    def fileno(self):
+        return nondet_int()
+
+    def sendmsg(self, buffers):
+        k = nondet_int()
+        if k == 0:
+            raise BlockingIOError
+        if k == 1:
+            raise InterruptedError
+        if k == 2:
+            raise_any(OSError, BlockingIOError, InterruptedError)
+        n = nondet_int()
+        assume(0 <= n and n <= len(flat(buffers)))
+        assume(implies(len(buffers) >= 1 and len(buffers[0]) >= 1, n >= 1))
+        ghost.WIRE = ghost.WIRE + flat(buffers)[:n]
+        return n
+
+    def send(self, data):
+        k = nondet_int()
+        if k == 0:
+            raise BlockingIOError
+        if k == 1:
+            raise InterruptedError
+        if k == 2:
+            raise_any(OSError, BlockingIOError, InterruptedError)
+        n = nondet_int()
+        assume(0 <= n and n <= len(data))
+        assume(implies(len(data) >= 1, n >= 1))
+        ghost.WIRE = ghost.WIRE + bytes(data)[:n]
+        return n
+
+
+def supports_socket_sendmsg(sock):
+    return nondet_bool()
